@@ -587,7 +587,7 @@ def check_property(prop, tier, only=None, jobs=None, seed=0, skip_smt=False, ski
         ev["violations"].append({"harness": name, "replay": path})
 
     wall = time.time() - t_start
-    write_evidence(prop, tier, seed, ev, wall)
+    write_evidence(prop, tier, seed, ev, wall, partial=bool(only or skip_smt or skip_kani))
     n_ob = len(ev["obligations"])
     log("SUMMARY property=%s tier=%s obligations=%d discharged=%d known=%d inconclusive=%d violations=%d wall=%.0fs"
         % (prop, tier, n_ob, ev["discharged"], len(ev["known_hit"]), len(ev["inconclusive"]), len(violations), wall))
@@ -645,8 +645,11 @@ def replay_failures(prop, h, new_fails, tier_cfg):
     return res
 
 
-def write_evidence(prop, tier, seed, ev, wall):
-    os.makedirs(EVIDENCE, exist_ok=True)
+def write_evidence(prop, tier, seed, ev, wall, partial=False):
+    # development runs restricted with --only / --no-smt / --no-kani must not replace the
+    # evidence of the full check
+    evdir = os.path.join(BUILD, "partial-evidence") if partial else EVIDENCE
+    os.makedirs(evdir, exist_ok=True)
     discharged = [o for o in ev["obligations"] if o["status"] == "discharged"]
     samples = []
     for o in ev["obligations"][:400]:
@@ -699,7 +702,7 @@ def write_evidence(prop, tier, seed, ev, wall):
         "wall_s": round(wall, 1),
         "violations": len(ev["violations"]),
     }
-    json.dump(doc, open(os.path.join(EVIDENCE, prop + ".json"), "w"), indent=1)
+    json.dump(doc, open(os.path.join(evdir, prop + ".json"), "w"), indent=1)
 
 
 def replay_file(path):
